@@ -112,7 +112,7 @@ def lib_frame(tb_exc):
 
 class KnownFindings:
     def __init__(self, prop, path=None):
-        path = path or os.path.join(VERIF, "known_findings.json")
+        path = path or os.environ.get("VERIF_KNOWN") or os.path.join(VERIF, "known_findings.json")
         self.entries = []
         if os.path.exists(path):
             with open(path) as f:
